@@ -27,6 +27,11 @@ C_PROT = 'MAKAWKIRPAKAAR'
 C_CDS = O.back_translate(C_PROT)
 C_UTR3 = 'GGCATGTGGCGTTAGCC'
 CODING = C_UTR5 + C_CDS + 'TAA' + C_UTR3
+# second coding transcript (pool-independence block): its canonical pool holds INTERNAL peptides that start
+# with M and are spellable by the token alphabet (so an ORF's first product can be canonical while its
+# M-removed form is not), plus M-less neighbours of some of them
+C_PROT_ALT = 'MGRMAKMPKMIKMWKMARMAAKMKAKPAKMIRMPAKWRAIKGGR'
+CODING_ALT = C_UTR5 + O.back_translate(C_PROT_ALT) + 'TAA' + C_UTR3
 
 TX_C, TX_N = 'ENST01', 'ENST02'
 G_C, G_N = 'ENSG01', 'ENSG02'
@@ -58,14 +63,15 @@ def nc_seq(tokens, left=LEFT, right=RIGHT):
     return left + ''.join(tokens) + right
 
 
-def build_ref(nc: str, layout: str = 'plus1') -> refgen.Ref:
+def build_ref(nc: str, layout: str = 'plus1', alt_coding: bool = False) -> refgen.Ref:
     """Two-gene reference: fixed coding gene (+ strand, one exon) and the non-coding gene carrying
     `nc` as its only transcript.  layout: plus1 = + strand, one exon; minus2 = - strand, two exons."""
-    g0 = PAD + CODING + PAD
+    coding, prot = (CODING_ALT, C_PROT_ALT) if alt_coding else (CODING, C_PROT)
+    g0 = PAD + coding + PAD
     s = len(g0)
     c0 = len(PAD)
-    coding_tx = dict(tx_id=TX_C, exons=[(c0, c0 + len(CODING))],
-                     cds=(c0 + len(C_UTR5), c0 + len(C_UTR5) + len(C_CDS)))
+    coding_tx = dict(tx_id=TX_C, exons=[(c0, c0 + len(coding))],
+                     cds=(c0 + len(C_UTR5), c0 + len(C_UTR5) + 3 * len(prot)))
     if layout == 'plus1':
         genome = g0 + nc + PAD
         exons = [(s, s + len(nc))]
@@ -88,8 +94,8 @@ def build_ref(nc: str, layout: str = 'plus1') -> refgen.Ref:
         dict(gene_id=G_N, strand=strand, biotype=NC_BIOTYPE, transcripts=[dict(tx_id=TX_N, exons=exons)]),
     ])
     assert R.tx_seq(TX_N) == nc, (R.tx_seq(TX_N), nc)
-    assert R.tx_seq(TX_C) == CODING
-    assert R.protein(TX_C) == C_PROT
+    assert R.tx_seq(TX_C) == coding
+    assert R.protein(TX_C) == prot
     return R
 
 
@@ -176,10 +182,10 @@ def selected(cfg, nc_len):
 _canon_cache = {}
 
 
-def canon_pool(cl: O.Cleavage):
-    k = cl.key()
+def canon_pool(cl: O.Cleavage, alt: bool = False):
+    k = (cl.key(), alt)
     if k not in _canon_cache:
-        _canon_cache[k] = O.canonical_pool({TX_C: C_PROT}, cl)
+        _canon_cache[k] = O.canonical_pool({TX_C: C_PROT_ALT if alt else C_PROT}, cl)
     return _canon_cache[k]
 
 
